@@ -219,7 +219,7 @@ Proof. unfold unnamed_step. rel1_tac. Qed.
 #[global] Hint Resolve rel1_unnamed_step : rel.
 Lemma rel1_via_union {Sc n key leaf} : (forall n', rel1 (leaf n')) -> rel1 (via_union Sc n key leaf).
 Proof. intro H. unfold via_union. destruct n; auto. rel1_tac; auto. Qed.
-Lemma rel1_unit_variant_null Sc n variant m : rel1 m -> rel1 (unit_variant_null Sc n variant m).
+Lemma rel1_unit_variant_null Sc n ename variant m : rel1 m -> rel1 (unit_variant_null Sc n ename variant m).
 Proof.
   intro H. unfold unit_variant_null. destruct n; auto.
   destruct (union_named Sc variants variant) as [[d k']|]; auto.
@@ -1247,7 +1247,7 @@ Proof. unfold unnamed_step. np1_tac. Qed.
 Lemma np1_via_union {strict Sc n key leaf} :
   (forall n', np1 strict (leaf n')) -> np1 strict (via_union Sc n key leaf).
 Proof. intro H. unfold via_union. destruct n; auto. np1_tac; auto. Qed.
-Lemma np1_unit_variant_null strict Sc n variant m : np1 strict m -> np1 strict (unit_variant_null Sc n variant m).
+Lemma np1_unit_variant_null strict Sc n ename variant m : np1 strict m -> np1 strict (unit_variant_null Sc n ename variant m).
 Proof.
   intro H. unfold unit_variant_null. destruct n; auto.
   destruct (union_named Sc variants variant) as [[d k']|]; auto.
